@@ -199,6 +199,19 @@ func (s *Session) SetModuleState(moduleName string, state any) {
 	s.moduleStates[moduleName] = state
 }
 
+// LoadOrStoreModuleState returns the state registered under moduleName when
+// there is one. Otherwise it registers and returns the given state.
+func (s *Session) LoadOrStoreModuleState(moduleName string, state any) any {
+	s.moduleMutex.Lock()
+	defer s.moduleMutex.Unlock()
+
+	if registered, ok := s.moduleStates[moduleName]; ok {
+		return registered
+	}
+	s.moduleStates[moduleName] = state
+	return state
+}
+
 func (s *Session) ModuleState(moduleName string) (any, bool) {
 	s.moduleMutex.RLock()
 	defer s.moduleMutex.RUnlock()
